@@ -586,6 +586,57 @@ def several_packages_roundtrip(ctx, k, tmp, fmt='xmi'):
                     {'packages_case': k})
 
 
+def repeats_case(ctx, tag, k, tmp, fmt):
+    """features declared `unique=False` that hold a value more than once — a many-valued reference (no opposite) with
+    repeated targets, a many-valued attribute with repeated values: order and repetitions come back as saved"""
+    import os
+    from pyecore import ecore as E
+    from pyecore.resources import ResourceSet, URI
+    from pyecore.resources.json import JsonResource
+    rng = common.sub_rng(ctx.seed, tag, 'repeats', k, fmt)
+    pk = E.EPackage('rp', f'http://verif/{tag}/rp{k}', 'rp')
+    A = E.EClass('A')
+    pk.eClassifiers.append(A)
+    A.eStructuralFeatures.extend([E.EAttribute('name', E.EString), E.EReference('kids', A, upper=-1, containment=True),
+                                  E.EReference('stops', A, upper=-1, unique=False, ordered=True),
+                                  E.EAttribute('nums', E.EInt, upper=-1, unique=False), E.EAttribute('words', E.EString, upper=-1, unique=False)])
+    root = A(name='r')
+    kids = [A(name=f'k{i}') for i in range(rng.randint(2, 4))]
+    root.kids.extend(kids)
+    holder = rng.choice([root] + kids)
+    stops = [rng.choice(kids) for _ in range(rng.randint(2, 6))]
+    stops.append(stops[0])
+    holder.stops.extend(stops)
+    nums = [rng.randint(0, 2) for _ in range(rng.randint(2, 5))] + [1, 1]
+    holder.nums.extend(nums)
+    words = [rng.choice(['a', 'b', 'a b']) for _ in range(rng.randint(2, 4))] + ['a', 'a']
+    holder.words.extend(words)
+
+    def rs():
+        r = ResourceSet()
+        r.resource_factory['json'] = lambda uri: JsonResource(uri)
+        r.metamodel_registry[pk.nsURI] = pk
+        return r
+    path = os.path.join(tmp, f'repeats{k}.{fmt}')
+    res = rs().create_resource(URI(path))
+    res.use_uuid = k % 3 == 2
+    res.append(root)
+    ctx.evaluations += 1
+    ctx.count(f'repeats/{fmt}')
+    ctx.nontriv(('repeats', fmt, k))
+    want = ([s_.name for s_ in stops], nums, words)
+    try:
+        res.save()
+        back = rs().get_resource(URI(path)).contents[0]
+        h2 = back if holder is root else back.kids[kids.index(holder)]
+        got = ([unproxy(s_).name for s_ in h2.stops], list(h2.nums), list(h2.words))
+    except Exception as e:
+        got = f'raised {type(e).__name__}: {str(e)[:80]}'
+    if got != want:
+        ctx.violate({'clause': 'not-isomorphic', 'repeats': True, 'format': fmt},
+                    f'{fmt}: non-unique features holding repeats (targets, ints, strings) were {want}, reloaded {got}', {'repeats_case': k, 'format': fmt})
+
+
 def run(ctx):
     common.use_repo()
     n = 300 if ctx.quick() else 6000
@@ -606,6 +657,7 @@ def run(ctx):
             fresh_set_case(ctx, 'C08', k, tmp, 'xmi')
         for k in range(30 if ctx.quick() else 500):
             several_packages_roundtrip(ctx, k, tmp)
+            repeats_case(ctx, 'C08', k, tmp, 'xmi')
         for h in range(80 if ctx.quick() else 1500):
             resave_case(ctx, 'C08', h, tmp, 'xmi')
     finally:
